@@ -21,7 +21,7 @@ func TestProbe_LeaderComputationDoesNotPanic(t *testing.T) {
 	for _, c := range []struct {
 		height specqbft.Height
 		round  specqbft.Round
-	}{{4, 0}, {0, 0}, {1 << 63, 1}, {^specqbft.Height(0), 1}} {
+	}{{4, 0}, {0, 0}, {1 << 63, 1}, {^specqbft.Height(0), 1}, {0, ^specqbft.Round(0)}, {3, 1 << 63}, {1, (1 << 63) - 1}} {
 		msg := &specqbft.SignedMessage{
 			Signers: []spectypes.OperatorID{1},
 			Message: specqbft.Message{MsgType: specqbft.ProposalMsgType, Height: c.height, Round: c.round},
